@@ -80,7 +80,7 @@ def lm_session(w, sc, mon):
         if v_bytes != mv:
             viol("verifier", "password_verifier() = %s, model v = %s (user %r pw %r salt %s)" % (v_bytes.hex(), mv.hex(), un, pn, salt.hex()))
             return
-        if ver.b("user") != un.encode():
+        if M.norm(ver.b("user").decode("utf-8", "replace")) != un:
             viol("username", "username() = %r, expected %r" % (ver.b("user"), un))
     else:
         salt = bytes.fromhex(sc["salt"])
